@@ -91,6 +91,24 @@ def mon_layout(steps, meta):
 wk.MONITORS["layout"] = mon_layout
 
 
+def mon_own_directory(steps, meta):
+    """each of the files written once (meta 'names', below inc/) has, after the pass, exactly one version, in the store
+    directory named like the file itself: distinct files never share a store directory"""
+    dumps = [st.dump for st in steps if st.dump is not None]
+    if not dumps or not meta.get("names"):
+        return None
+    last = dumps[-1]
+    for nm in meta["names"]:
+        vers = [p for p, e in last.items() if p.startswith("/k/store/inc/%s/" % nm) and e[0] == "file"]
+        if len(vers) != 1:
+            others = sorted(p for p, e in last.items() if p.startswith("/k/store/") and e[0] == "file")
+            return "the file inc/%s was written once and has %d versions in its own store directory (the store holds %s)" % (nm, len(vers), others)
+    return None
+
+
+wk.MONITORS["own_directory"] = mon_own_directory
+
+
 def main(rep):
     exe_impl, exe_model = vlib.prepare(rep)
     found = False
@@ -121,8 +139,33 @@ def main(rep):
         for i in range(nw // 3):
             t, m = wc.gen_project_case(rng)
             wcases.append(("j%d" % i, t, m))
+        # names as users write them: blanks, a literal " (deleted)" at the end (what the kernel appends to the names of
+        # unlinked files - these are linked), tildes, several dots: each file has its own store directory, named like it
+        ncases = []
+        for i in range(12 if rep.tier == "quick" else 120):
+            s = wc.Script()
+            wc.setup_world(s, wc.base_cfg(deb=0))
+            s.start()
+            s.exec(3, wc.X + "/vim")
+            names = rng.sample(["report.txt", "report.txt (deleted)", "a b.c", "x (deleted).txt", "notes~", "v 1.2.tar.gz", "(deleted)", "r.txt (deleted) ", "tab\tname.md"], rng.randint(2, 5))
+            for j, nm in enumerate(names):
+                s.put(wc.WATCH + "/inc/" + nm, "content of %s #%d" % (nm, j))
+            s.dump()
+            for nm in names:
+                s.write(3, wc.WATCH + "/inc/" + nm)
+            s.tick(1)
+            s.dump()
+            s.timeout()
+            s.dump()
+            ncases.append(("n%d" % i, s.text(), {"names": names}))
         if not found:
             f2, v2 = wk.run_cases(rep, exe_impl, exe_model, wcases, ["confined", "layout", "faithful"], what="confinement")
+            found = found or f2
+            validated += v2
+        if not found:
+            # (the call log separates its fields by blanks, so names with blanks are judged by the dumps, not by the log)
+            f2, v2 = wk.run_cases(rep, exe_impl, exe_model, ncases, ["layout", "faithful", "own_directory"], what="names")
+            wcases = wcases + ncases
             found = found or f2
             validated += v2
             for c in wcases:
@@ -168,7 +211,7 @@ def main(rep):
                                          "store_paths": sum(1 for c in pc if c[2][0] == "sp"), "world_histories": len(wcases), "watch_root_tuples": len(mcases)}
         rep.cov["rule"] = ("extension: every name over {a,b,.,/} up to length %d plus random names; store paths with 0..1234 collisions; "
                            "common parent: every tuple of 1-3 watch roots over {/, /a, /a/b, /a/c, /d, /a/b/c} through the real main(); "
-                           "confinement: random handler histories (files, history paths, projects, deletions, reloads, restarts) with the call log of every "
+                           "file names with blanks, a literal ' (deleted)' suffix, tildes, tabs; confinement: random handler histories (files, history paths, projects, deletions, reloads, restarts) with the call log of every "
                            "operation checked against the configured locations and the watched tree compared before/after each timeout pass; every new version must sit at "
                            "store_root/<relative path>/<version>[-k]<extension> of a file whose write was accepted and equal its source; "
                            "non-trivial = name contains a dot / history with at least one handler operation" % (6 if rep.tier == "quick" else 7))
